@@ -306,3 +306,48 @@ def r_powerstart(A, ctx, scope, rule="R-POWER"):
                 "constant vector) the iteration converges to a smaller singular value and the "
                 "sparse global Lipschitz constant is below the curvature", loc=loc(f, pre[0] if pre else f.node))
     ctx.floor(rule, n, 1)
+
+
+def _abs_eps_compares(tree):
+    """comparisons one of whose operands is a literal constant c with 0 < |c| < 1e-3 (not
+    scaled by any data-dependent factor)"""
+    out = []
+    for n in ast.walk(tree):
+        if not isinstance(n, ast.Compare):
+            continue
+        for c in [n.left] + list(n.comparators):
+            v = c
+            if isinstance(v, ast.UnaryOp) and isinstance(v.op, (ast.USub, ast.UAdd)):
+                v = v.operand
+            if isinstance(v, ast.Constant) and isinstance(v.value, (int, float)) \
+                    and not isinstance(v.value, bool) and 0 < abs(v.value) < 1e-3:
+                out.append(n)
+                break
+    return out
+
+
+def r_abseps(A, ctx, scope, rule="R-ABSEPS"):
+    ctx.rule(rule, "no absolute epsilon: library code never compares a quantity with a small "
+             "literal threshold (0 < |c| < 1e-3) that is not scaled by the data - such a guard "
+             "changes behaviour when a feature (and its weight) is rescaled, and treats small "
+             "but meaningful curvatures / updates as zero")
+    # the matcher must see its positive example on every run
+    probe = ast.parse("def f(lc, j):\n    return 1 / lc[j] if lc[j] > 1e-10 else 1000\n")
+    if len(_abs_eps_compares(probe)) != 1:
+        raise AnalysisError("R-ABSEPS matcher lost its positive example")
+    n = 0
+    for m in A.prog.modules.values():
+        if ".tests" in m.name or m.name.endswith("conftest"):
+            continue
+        for f in list(m.functions.values()) + [x for c in m.classes.values() for x in c.methods.values()]:
+            n += 1
+            hits = _abs_eps_compares(f.node)
+            for h in hits:
+                ctx.ob(rule, f"{f.fq}::{norm_src(h)[:60]}", False,
+                       what=f"`{norm_src(h)[:80]}` compares with an absolute threshold: rescaling a "
+                            "feature together with its weight (or the whole problem) changes which "
+                            "branch is taken; exactly-zero tests or thresholds relative to the data "
+                            "are the repository's idiom", loc=loc(f, h))
+            if not hits:
+                ctx.ob(rule, f"{f.fq}", True)
+    ctx.floor(rule, n, scope.get("floor", 300))
